@@ -153,6 +153,11 @@ def run():
     prove('DOT_EXT step', z3.Implies(z3.And(n >= 0, z3.Implies(agr(n), DOT(A, o, st, H, n) == DOT(B, o, st, H, n)), agr(n + 1)),
                                      DOT(A, o, st, H, n + 1) == DOT(B, o, st, H, n + 1)), *dot_defs(A, B))
 
+    # a sum of squares is non-negative and at least any one of its terms
+    sqdefs = [z3.And(DOT(A, 0, 1, A, 0) == 0, z3.Implies(n >= 0, DOT(A, 0, 1, A, n + 1) == DOT(A, 0, 1, A, n) + A[0 + n * 1] * A[n]))]
+    dsq = lambda m: z3.And(z3.Implies(m >= 0, DOT(A, 0, 1, A, m) >= 0), z3.Implies(z3.And(0 <= p, p < m), DOT(A, 0, 1, A, m) >= A[p] * A[p]))
+    prove('DOTSQ_GE base', dsq(0), *sqdefs)
+    prove('DOTSQ_GE step', z3.Implies(z3.And(n >= 0, dsq(n)), dsq(n + 1)), *sqdefs)
     # weighted mean between the bounds of the values when the weights are non-negative
     lo_, hi_ = z3.Reals('lo_ hi_')
     wdefs = [z3.And(SUMR(H, 0) == 0, z3.Implies(n >= 0, SUMR(H, n + 1) == SUMR(H, n) + H[n])),
